@@ -39,7 +39,13 @@ def roundtrip(setj: dict) -> dict:
     from explorerscript.ssb_script.ssb_converting.ssb_decompiler import SsbScriptSsbDecompiler
     infos, ops, coros = ssbjson.set_from_json(setj)
     try:
-        text, _sm = SsbScriptSsbDecompiler(infos, ops, coros).convert()
+        dec = SsbScriptSsbDecompiler(infos, ops, coros)
+        text, _sm = dec.convert()
+        # (the answer of a later convert() of the same decompiler object is an answer of the decompiler like the first:
+        #  every third set is converted a second time and that text goes through the compiler)
+        import zlib
+        if zlib.crc32(repr(setj).encode()) % 3 == 0:
+            text, _sm = dec.convert()
     except BaseException as e:  # noqa
         return {"dec_exc": _exc(e)}
     r = {"text": text}
